@@ -106,6 +106,8 @@ func (d *Deque[T]) resize(n int) {
 	d.a = newA
 	d.front = 0
 	d.back = oldLen - 1
+	// Live iterators hold an index into the old buffer.
+	d.gen++
 }
 
 // PopFront removes and returns the item at the front of the deque. It panics if the deque is empty.
